@@ -313,7 +313,8 @@ func (vc *VC) getGhost(st *State, name string, key string, sort string) string {
 func (vc *VC) rvInterface(v Val) Val {
 	vc.declareRVFuncs()
 	it := types.NewInterfaceType(nil, nil)
-	return Val{T: it, L: []string{ite(app("bvult", v.L[iMt], bvLit(64, rvElemV)), app("RVTag", v.L[iMt]), v.L[iTTag]), v.L[iObj]}}
+	// a Value that views a whole message yields the message type; a field or element Value its own static type
+	return Val{T: it, L: []string{ite(and(app("bvult", v.L[iMt], bvLit(64, rvElemV)), eq(v.L[iFld], allOnes64)), app("RVTag", v.L[iMt]), v.L[iTTag]), v.L[iObj]}}
 }
 
 // errTarget describes one error value used as an errors.Is target.
